@@ -50,6 +50,13 @@ CHECKS = {
         note="Trusted: TLC, exact-rational projection, pde's grid.distance as the definition of the periodic metric. Tie-breaking among equal radii is not fixed by the property: a different survivor among tied droplets is a deviation, not a violation. get_neighbor_distances(subtract_radius=True) judged only for tied radii (see DESIGN).",
         ref="§3 C10",
     ),
+    "C11": dict(
+        level="model_checking",
+        technique="TLA+ spec Merge.tla (heap of droplets in exact power-sum coordinates; MergeOut / MergeIn / MergeCompiled actions) model-checked by TLC over every merge history; spec->code replay of every history on real droplets through all three code paths",
+        text="TLC explores every history that merges 2-4 lattice droplets (radii incl. 0, fixed integer positions, widths unset/0/positive) in 1, 2 and 3 dimensions in any order and grouping with any of the three code paths per step, and checks TotalVolume, TotalMoment (centre of mass), Commutative, Associative (volume/moment under regrouping), FinalUnique and OperandsIntact in exact integer/rational arithmetic. Every history (quick 9e3, thorough 9e5) is executed on real SphericalDroplet/DiffuseDroplet objects; every heap object must have the spec's r^d, centre M/m and mean width (1e-12), operands are compared by bytes, in-place vs out-of-place results bit for bit, compiled path and swapped operand order within 4 ulp. Random real-valued merge trees (2-7 droplets, scales 1e-3..1e3, zero radii) are compared with exact rational power sums.",
+        note="Trusted: TLC, Fractions for the random trees. The algebraic identity for all positive reals is checked on the lattice exactly and sampled elsewhere; floating-point associativity is only required to 1e-11 relative.",
+        ref="§3 C11",
+    ),
     "C15": dict(
         level="model_checking",
         technique="TLA+ spec Parallel.tla (executor.map as Take/Finish/Yield with W workers, None-filter) model-checked by TLC over all interleavings; every complete schedule forced in real ProcessPoolExecutors (spec->code) and the workers' start/end logs validated by TraceParallel.tla (code->spec)",
